@@ -684,8 +684,9 @@ package sam
 //@ func blockToSeqPair
 //@   modifies everything
 //@   # C05/C02: the gap run of an insertion goes in at the insertion's reference coordinate shifted by the gaps ALREADY put
-//@   # into that row by earlier insertions (the row's offset at the start of this step), and every row's offset grows by
-//@   # exactly the insertion's length per insertion - whether the row is gapped or carries the insertion itself
+//@   # into that row by earlier insertions (the row's offset at the start of this step); per insertion a row's offset grows
+//@   # by exactly the insertion's length (always for the row that carries the insertion) or - for a row that ends before the
+//@   # insertion point - stays as it was
 //@   after assign:at#1: assert [c05.insert.at] at == insertion.start + pre(5, offsets[j])
 //@   requires len(alignedBlock.seqpairArray) >= 1 && len(alignedBlock.cigarArray) == len(alignedBlock.seqpairArray) && len(alignedBlock.posArray) == len(alignedBlock.seqpairArray)
 //@   requires forall(a, 0, len(alignedBlock.seqpairArray), len(alignedBlock.seqpairArray[a].ref) == len(alignedBlock.seqpairArray[a].query))
@@ -709,7 +710,7 @@ package sam
 //@     invariant forall(a, 0, len(offsets), offsets[a] >= 0)
 //@     invariant forall(a, 0, len(refSeqArray), len(refSeqArray[a]) == len(queSeqArray[a]))
 //@     invariant insertion.start >= 0 && insertion.length >= 0
-//@     invariant [c05.offset.step] forall(a, 0, range_i, offsets[a] == pre(4, offsets[a]) + insertion.length) && forall(a, range_i, len(offsets), offsets[a] == pre(4, offsets[a]))
+//@     invariant [c05.offset.step] forall(a, 0, range_i, offsets[a] == pre(4, offsets[a]) + insertion.length || (offsets[a] == pre(4, offsets[a]) && a != rowNumber)) && forall(a, range_i, len(offsets), offsets[a] == pre(4, offsets[a]))
 //@   loop 7:
 //@     invariant max >= 0 && forall(a, 0, range_i, len(refSeqArray[a]) <= max)
 //@   loop 8:
